@@ -227,6 +227,19 @@ def step (d : D) : List String → D × String
       let (st, evs) := flush (runOp fuelMax d.net (.enable n i)).1
       ({ d with net := st }, s!"ok {evs}")
     | _, _ => (d, "bad-op")
+  | ["inject", n, i, ttl, smac, dmac, sip, dip] =>
+    -- a crafted echo request handed to an interface (`RouterInterface.receive_frame`): `ifaceRecv` of the proved interpreter, composed
+    -- here with the `enabled` test `sendFrame` makes before it; identifier = the frame's own number (never a ping's)
+    match n.toNat?, i.toNat?, ttl.toInt?, smac.toNat?, dmac.toNat?, parseIp sip, parseIp dip with
+    | some n, some i, some ttl, some sm, some dm, some sip, some dip =>
+      match d.net.iface? n i with
+      | some ifc =>
+        if !ifc.enabled then (d, "ok ") else
+        let f : Frame := { id := d.net.nextId, srcMac := sm, dstMac := dm, srcIp := sip, dstIp := dip, ttl := ttl, pl := .echoReq d.net.nextId }
+        let (st, evs) := flush (ifaceRecv fuelMax { d.net with nextId := d.net.nextId + 1 } n i f).1
+        ({ d with net := st }, s!"ok {evs}")
+      | none => (d, "bad-op")
+    | _, _, _, _, _, _, _ => (d, "bad-op")
   | ["disable", n, i] =>
     match n.toNat?, i.toNat? with
     | some n, some i => ({ d with net := (runOp fuelMax d.net (.disable n i)).1 }, "ok")
